@@ -120,7 +120,14 @@ LAYER = st.fixed_dictionaries({
     'r': logu(1e3, 1e7), 'mu_abs': logu(1e7, 1e12), 'mu_loss': st.floats(0.002, 1.5), 'K_abs': logu(1e8, 1e13),
     'K_loss': st.floats(0.0, 0.3), 'y': st.tuples(Y_SMALL, Y_BIG, Y_SMALL, Y_BIG).map(list)})
 LON = st.lists(st.floats(0.0, 2.0 * math.pi), min_size=1, max_size=6)
-COLAT = st.lists(st.floats(0.05, math.pi - 0.05), min_size=1, max_size=6)
+POLE_DIST = st.floats(-7.0, -2.0).map(lambda x: min(1e-2, max(1e-7, 10.0 ** x)))     # rad from a pole, log-uniform
+COLAT_PT = st.one_of(st.floats(0.05, math.pi - 0.05), st.floats(0.05, math.pi - 0.05).map(lambda v: v),
+                     st.floats(0.01, math.pi - 0.01),
+                     POLE_DIST, POLE_DIST.map(lambda d: math.pi - d))
+COLAT = st.lists(COLAT_PT, min_size=1, max_size=6)
+COLAT_LO, COLAT_HI = 1e-7, math.pi - 1e-7
+REPO_POLE_DIST = 0.02      # the repository's l=2 potentials use 3(1 - cos^2) for P22: relative accuracy eps/sin^2 near a pole
+COLAT_REPO = st.lists(st.floats(REPO_POLE_DIST, math.pi - REPO_POLE_DIST), min_size=1, max_size=6)
 TIME = st.lists(st.floats(0.0, 1.0), min_size=1, max_size=6)
 
 
@@ -137,9 +144,9 @@ S_REPO = st.fixed_dictionaries({'kind': st.sampled_from(['repo_simple', 'repo_ns
                                 'spin_ratio': st.floats(0.2, 5.0), 'host_mass': logu(1e24, 1e30), 'a': logu(1e8, 1e11)})
 
 
-def _s_case(l, pot):
+def _s_case(l, pot, colat=COLAT):
     return st.fixed_dictionaries({
-        'l': st.just(l), 'pot': pot, 'lon': LON, 'colat': COLAT, 'time': TIME,
+        'l': st.just(l), 'pot': pot, 'lon': LON, 'colat': colat, 'time': TIME,
         'layers': st.lists(LAYER, min_size=1, max_size=4),
         'mode': st.sampled_from(['visco', 'visco', 'visco', 'visco', 'elastic', 'elastic_cy']),
         'bulk_dtype': st.sampled_from(['float', 'complex']),
@@ -151,7 +158,7 @@ def _s_case(l, pot):
 
 
 def strategy(tier):
-    return st.one_of(_s_case(2, _s_ylm(2)), _s_case(3, _s_ylm(3)), _s_case(4, _s_ylm(4)), _s_case(2, S_REPO))
+    return st.one_of(_s_case(2, _s_ylm(2)), _s_case(3, _s_ylm(3)), _s_case(4, _s_ylm(4)), _s_case(2, S_REPO, COLAT_REPO))
 
 
 def _layer(r, mu_abs, mu_loss, K_abs, K_loss, y):
@@ -173,6 +180,12 @@ def fixed_cases(tier):
         out.append({'l': 2, 'pot': {'kind': kind, 'R': 1.0e6, 'e': 0.05, 'spin_ratio': 1.5, 'host_mass': 1.9e27, 'a': 4.2e8},
                     'lon': [0.0, 1.0, 3.0], 'colat': [0.4, 1.2, 2.5], 'time': [0.1, 0.6], 'layers': lay, 'mode': 'visco',
                     'bulk_dtype': 'complex', 'frequency': 4.0e-5})
+    for base in list(out[:9]):                   # the same inputs on colatitude grids that hug both poles
+        out.append(dict(base, colat=[1.0e-7, 2.0e-6, 3.0e-4, 5.0e-3, 1.2, math.pi - 8.0e-3, math.pi - 4.0e-5, math.pi - 1.0e-7][:6]
+                        if base['l'] != 3 else [4.0e-4, math.pi - 8.0e-3, math.pi - 4.0e-5, math.pi - 1.0e-7]))
+    out.append(dict(out[-1], pot=dict(out[-1]['pot']), l=2, colat=[0.02, 0.7, math.pi - 0.02], layers=lay, mode='visco',
+                    bulk_dtype='complex'))
+    out[-1]['pot'] = {'kind': 'repo_nsr', 'R': 1.0e6, 'e': 0.05, 'spin_ratio': 1.5, 'host_mass': 1.9e27, 'a': 4.2e8}
     for base in list(out[:6]):                   # both bulk dtypes on both dtype routes
         out.append(dict(base, route='int'))
         out.append(dict(base, route='zerod'))
@@ -181,7 +194,8 @@ def fixed_cases(tier):
 
 def required_labels(tier):
     return ['l=2', 'l=3', 'l=4', 'pot:ylm', 'pot:repo_simple', 'pot:repo_nsr', 'mode:visco', 'mode:elastic', 'mode:elastic_cy',
-            'bulk:float', 'bulk:complex', 'route:float', 'route:int', 'route:zerod', 'route_applied:int', 'freq:zero', 'freq:negative', 'freq:tiny', 'freq:positive', 'grid:single_point', 'grid:multi', 'radii:1', 'radii:>1', 'near_pole']
+            'bulk:float', 'bulk:complex', 'route:float', 'route:int', 'route:zerod', 'route_applied:int', 'freq:zero', 'freq:negative', 'freq:tiny', 'freq:positive', 'grid:single_point', 'grid:multi', 'radii:1', 'radii:>1', 'near_pole', 'pole:north', 'pole:south',
+            'pole_dist:<1e-5', 'pole_dist:1e-5..1e-3', 'pole_dist:1e-3..1e-2']
 
 
 def _rng(x, lo, hi):
@@ -200,13 +214,15 @@ def in_domain(case):
             if not _rng(p['amp'], 1e-2, 1e6):
                 return False
         elif p['kind'] in ('repo_simple', 'repo_nsr'):
+            if not all(_rng(v, REPO_POLE_DIST, math.pi - REPO_POLE_DIST) for v in case['colat']):
+                return False
             if l != 2 or not (_rng(p['R'], 1e5, 1e8) and _rng(p['e'], 0.001, 0.4) and _rng(p['spin_ratio'], 0.2, 5.0)
                               and _rng(p['host_mass'], 1e24, 1e30) and _rng(p['a'], 1e8, 1e11)):
                 return False
         else:
             return False
         ok = (1 <= len(case['lon']) <= 6 and all(_rng(v, 0.0, 2 * math.pi) for v in case['lon'])
-              and 1 <= len(case['colat']) <= 6 and all(_rng(v, 0.05, math.pi - 0.05) for v in case['colat'])
+              and 1 <= len(case['colat']) <= 6 and all(_rng(v, COLAT_LO * (1 - 1e-9), math.pi - COLAT_LO * (1 - 1e-9)) for v in case['colat'])
               and 1 <= len(case['time']) <= 6 and all(_rng(v, 0.0, 1.0) for v in case['time'])
               and 1 <= len(case['layers']) <= 4 and case['mode'] in ('visco', 'elastic', 'elastic_cy')
               and case.get('route', 'float') in ROUTES and case['bulk_dtype'] in ('float', 'complex') and _rng(case['frequency'], -1e4, 1e4))
@@ -359,6 +375,11 @@ def evaluate(case):
             'grid:single_point' if nl * nc * nt == 1 else 'grid:multi', 'radii:1' if nr == 1 else 'radii:>1')
     if float(np.min(np.sin(colat))) < 0.1:
         c.label('near_pole')
+    for v in colat:
+        d = min(float(v), math.pi - float(v))
+        if d <= 1.0000001e-2:
+            c.label('pole:north' if v < 1.0 else 'pole:south',
+                    'pole_dist:<1e-5' if d < 1e-5 else ('pole_dist:1e-5..1e-3' if d < 1e-3 else 'pole_dist:1e-3..1e-2'))
     if six_nonzero:
         c.label('six_derivatives_nonzero')
     strain_fn, heat_fn = _fns()
@@ -430,11 +451,14 @@ def evaluate(case):
     tiny = 1e-280          # absolute floor: products involving subnormal potential values (e.g. sin(m*1e-308)) lose relative accuracy
     # -- Hooke, component-wise
     names = ['rr', 'thth', 'phph', 'rth', 'rph', 'thph']
+    pole_idx0 = np.nonzero(np.sin(colat) < 1.0000001e-2)[0]
     for k in range(6):
         want = 2.0 * mu * strains[k] + (lam * tr if k < 3 else 0.0)
         scale = 2.0 * amu * aeps[k] + ((aK + amu) * diag_abs if k < 3 else 0.0)
         ratio = np.abs(stresses[k] - want) / (scale + tiny)
         _stat('hooke', np.max(ratio))
+        if len(pole_idx0):
+            _stat('hooke@pole', np.max(ratio[:, :, pole_idx0, :]))
         if not np.all(ratio <= HOOKE_TOL):
             i = where(ratio)
             c.fail({'clause': 'hooke', 'component': names[k]},
@@ -451,6 +475,9 @@ def evaluate(case):
     s_rr = _srr_scale(l, y1, y2, y3, r, mu, K, lam, Ub, Utb, Uttb, Uppb, st4, ct4)
     ratio = np.abs(stresses[0] - want_rr) / (s_rr + tiny)
     _stat('traction/rr', np.max(ratio))
+    pole_idx = np.nonzero(np.sin(colat) < 1.0000001e-2)[0]
+    if len(pole_idx):
+        _stat('traction/rr@pole', np.max(ratio[:, :, pole_idx, :]))
     if not np.all(ratio <= TRAC_TOL):
         i = where(ratio)
         c.fail({'clause': 'traction', 'component': 'rr'},
@@ -463,6 +490,8 @@ def evaluate(case):
         ratio = np.abs(stresses[k] - want) / (scale + tiny)
         ratio = np.where(scale > 0.0, ratio, np.where(np.abs(stresses[k]) == 0.0, 0.0, np.inf))
         _stat('traction/' + comp, np.max(ratio))
+        if len(pole_idx):
+            _stat('traction/%s@pole' % comp, np.max(ratio[:, :, pole_idx, :]))
         if not np.all(ratio <= TRAC_TOL):
             i = where(ratio)
             c.fail({'clause': 'traction', 'component': comp},
